@@ -60,3 +60,9 @@ package telem
 //@ inline func (f Frame[K]) RawSeries() []Series
 //@ inline func (f Frame[K]) Append(key K, series Series) Frame[K]
 //@ pure func (f Frame[K]) ShouldExcludeRaw(rawIndex int) bool
+
+//@ # ---- alignments (bit packing of domain index and sample index): uninterpreted for callers
+//@ # that only pass them along (pragma abstract)
+//@ pure func NewAlignment(domainIdx uint32, sampleIdx uint32) Alignment
+//@ pure func (a Alignment) AddSamples(samples uint32) Alignment
+//@ pure func (a Alignment) DomainIndex() uint32
